@@ -9,6 +9,7 @@ import (
 
 	"github.com/anishathalye/porcupine"
 	"github.com/codelaboratoryltd/bng/pkg/pppoe"
+	"github.com/codelaboratoryltd/bng/pkg/simrt"
 
 	"verif/harness/sim"
 )
@@ -244,6 +245,56 @@ func (w *c20pppoe) seq(op sim.Op) {
 			w.m.RemoveSession(s.ID)
 		}
 		c.S.Logf("spin %d", n)
+		w.segInit = w.liveState()
+		return
+	case "sweeprace":
+		// the idle sweep runs while an idle session is torn down and its id is handed out again
+		// (only after the id counter has wrapped onto that session's id): the sweep must not take
+		// the new session away
+		w.lin()
+		var old *c20pslot
+		for _, sl := range w.slots {
+			if sl.live && w.m.GetSession(sl.id) == sl.s {
+				old = sl
+				break
+			}
+		}
+		if old == nil {
+			return
+		}
+		c.S.Sleep(3 * time.Second) // the old session goes idle
+		timeout := 1500 * time.Millisecond
+		freshMAC := net.HardwareAddr{0x02, 0x20, 0xfe, 0, 0, byte(len(w.slots))}
+		var fresh *pppoe.Session
+		// (the wrap variant runs with long scheduling quanta to get through the spin; the race itself
+		// is explored at the finest grain)
+		quantum := c.S.SkipMax
+		c.S.SkipMax = 1 + c.S.Choose(simrt.StSched, 3)
+		defer func() { c.S.SkipMax = quantum }()
+		t1 := c.S.Spawn("idle-sweep", nil, func() { w.m.CleanupExpired(timeout) })
+		t2 := c.S.Spawn("teardown+setup", nil, func() {
+			w.m.RemoveSession(old.id)
+			fresh, _ = w.m.CreateSession(freshMAC, w.server)
+		})
+		c.S.Join(t1, t2)
+		old.live = false
+		c.S.Fault("sweep.concurrent-with-teardown")
+		if fresh != nil {
+			if fresh.ID == old.id {
+				c.S.Probe("session_id_reused_during_sweep")
+			}
+			if got := w.m.GetSession(fresh.ID); got != fresh {
+				c.Fail("lookups-agree", "pppoe/sweep/new-session-lost-by-id", "a session created (id %d, reused=%v) while the idle sweep ran is gone from the table although it was never released or idle", fresh.ID, fresh.ID == old.id)
+			} else if got := w.m.GetSessionByMAC(freshMAC); got != fresh {
+				c.Fail("lookups-agree", "pppoe/sweep/new-session-lost-by-mac", "a session created (id %d) while the idle sweep ran cannot be found by its MAC", fresh.ID)
+			}
+			w.m.RemoveSession(fresh.ID)
+		}
+		for _, sl := range w.slots {
+			if sl.live {
+				sl.live = w.m.GetSession(sl.id) == sl.s // others may have expired legitimately
+			}
+		}
 		w.segInit = w.liveState()
 		return
 	case "cleanup":
